@@ -11,8 +11,9 @@ TIERS = {
     # MC_Handshake_q: the code as it is (deviations S7/S13/S14 named), every attacker schedule with <= 3 attacker
     # deliveries, behaviours dumped for replay; _live: the same under fairness (liveness modulo named deviations);
     # _ideal: the same model with the three deviations repaired satisfies every clause (the judge is satisfiable).
+    # (MC_Handshake_weak.cfg is a non-vacuity instance that is EXPECTED to violate Inv_NoViolation; run by hand, see NOTES.)
     "quick": dict(mc=[("MC_Handshake_q.cfg", 4), ("MC_Handshake_live.cfg", 4), ("MC_Handshake_ideal.cfg", 4)],
-                  replay_limit=None, random=dict(runs=4000, events=8)),
+                  replay_limit=None, random=dict(runs=5000, events=8)),
     "thorough": dict(mc=[("MC_Handshake_t.cfg", 8), ("MC_Handshake_live.cfg", 4), ("MC_Handshake_ideal.cfg", 4)],
                      replay_limit=None, random=dict(runs=40000, events=14)),
 }
@@ -25,8 +26,14 @@ ASSUME = [
     "in the quick tier, 4 bits per byte in the thorough tier) alteration of every field of the three messages, class-id swap, truncation, "
     "foreign-CA certificate (same subject name) with hashes / signature made consistent with the attacker's key, CA-issued insider "
     "certificate for the victim's GUID, unbound GUID in c.pdata; model: all schedules with <= 3 (quick) / 4 (thorough) attacker deliveries",
-    "whether a replier answers a bad REQUEST is unconstrained (requests are unsigned; dh1 / challenge1 are outside hash_c1); removing an "
-    "optional hash field and ECDSA signature malleability (r, n-s) are not counted as alterations",
+    "whether a replier answers a bad REQUEST is unconstrained (requests are unsigned; dh1 / challenge1 are outside hash_c1); "
+    "ECDSA signature malleability (r, n-s) is not counted as an alteration",
+    "presence of token properties: every delivery may also REMOVE properties. A clean message minus only properties whose inclusion "
+    "DDS Security 1.1 Tables 49-51 leave to the sender (hash_c1, hash_c2, dh1 of reply/final, dh2 of final) is an equivalent copy: "
+    "accepting it is allowed, refusing it is unconstrained; a bad (replayed, altered, forged) message stays bad whatever is removed from "
+    "it; removing any other property is an alteration. Model: all subsets of {hash_c1, hash_c2} (thorough: + dh1, dh2) on every "
+    "delivery; driver: every single-property removal, every subset of sender-optional properties on all 6 messages at the 3 points, "
+    "symbolic / byte alterations with the hashes removed, random subsets on a third of the random deliveries",
     "certificate validity period / revocation are not part of the property and not exercised",
 ]
 
